@@ -2397,6 +2397,17 @@ impl Exec {
                 let maxf = u64o(a, "max_fee").unwrap_or(0);
                 self.env.add_mint(&name, dec, &kind, bps, maxf);
             }
+            "set_transfer_fee" => {
+                let name = s(a, "mint").unwrap_or("M1").to_string();
+                self.env.set_transfer_fee(&name, u64o(a, "fee_bps").unwrap_or(0) as u16, u64o(a, "max_fee").unwrap_or(0));
+            }
+            "set_epoch" => {
+                if let Some(e) = u64o(a, "epoch") {
+                    self.env.world.clock.epoch = e;
+                } else {
+                    self.env.world.clock.epoch += u64o(a, "by").unwrap_or(1);
+                }
+            }
             "fund" => {
                 let user = s(a, "user").unwrap_or("U1").to_string();
                 let mint = s(a, "mint").unwrap_or("M1").to_string();
